@@ -22,7 +22,7 @@ def sh(cmd, cwd=None, env=None, timeout=3000):
 
 
 def suite(wt):
-  rc, out = sh('%s -m pytest -q -p no:cacheprovider --continue-on-collection-errors -rA tests/ 2>&1 | grep -E "^(PASSED|FAILED|ERROR|SKIPPED)" | sort' % PY,
+  rc, out = sh('%s -m pytest -q -p no:cacheprovider --continue-on-collection-errors -rA tests/ 2>&1 | grep -E "^(PASSED|FAILED|ERROR|SKIPPED) tests/" | sort' % PY,
                cwd=wt, env={'PYTHONPATH': wt})
   return out
 
